@@ -19,6 +19,9 @@ def skeleton_cases(ck):
         small = [c for c in allc if count_nodes(c[1]) <= 3]
         big = [c for c in allc if count_nodes(c[1]) > 3]
         allc = small + ck.rng.sample(big, min(len(big), 1500))
+    for pl in PLACEMENTS:
+        for b in gen_skel.families(pl in ("function", "method")):
+            allc.append((pl, b))
     n_rand = 700 if ck.tier == "quick" else 8000
     for _ in range(n_rand):
         pl = ck.rng.choice(PLACEMENTS)
@@ -46,6 +49,14 @@ def count_nodes(block):
 
 
 KF_D61B = [0]
+WALRUS_CONDITIONS = [
+    ("global", "def f():\n    global g\n    if (g := c(0)):\n        m(1)\n    elif (g := c(2)):\n        m(3)\n    else:\n        m(4)\n    m(5)\nf()\nf()\n"),
+    ("captured", "def f():\n    v = None\n    def h():\n        return v\n    for x0 in it(0):\n        if (v := c(1)):\n            m(2)\n            continue\n        m(3)\n"
+                 "        if h() is not v:\n            m(99)\n    m(4)\nf()\n"),
+    ("nonlocal", "def f():\n    v = None\n    def h():\n        nonlocal v\n        if (v := c(0)):\n            m(1)\n            return\n        m(2)\n    h()\n    h()\n    m(3)\nf()\n"),
+    ("class-member", "class K:\n    if (w := c(0)):\n        m(1)\n    else:\n        m(2)\n    for x1 in it(1):\n        if (w := c(2)):\n            break\n        m(3)\n    else:\n        m(4)\n"),
+    ("conditional-expression", "def f():\n    global g\n    m(1) if (g := c(0)) else m(2)\n    (g := c(3)) and m(4)\n    (g := c(5)) or m(6)\nf()\n"),
+]
 
 
 def trace_check(ol, src, cfg3, schedules):
@@ -109,6 +120,16 @@ def main(argv):
                 failing.append((src, (un, w, i), why, text, s))
         if idx % 400 == 7:
             ck.sample({"placement": pl, "source": src, "config": list(cfgs[0])})
+    # conditions that are assignment expressions on names which are not plain variables (declared global, captured by
+    # a nested function, class members): the condition must still be evaluated once per visit
+    for name, src in WALRUS_CONDITIONS:
+        for (w, i) in CFG4:
+            for un in ("ast.unparse", "oneliner"):
+                why, text, s = trace_check(ol, src, (un, w, i), [3, 8, 21, 34, 55, 89])
+                ck.case(f"walrus-condition|{un}|{w}|{i}|{src}", nontrivial=True)
+                ck.count("walrus_conditions")
+                if why:
+                    failing.append((src, (un, w, i), why, text, s))
     # K1: emitted tree of the model = emitted tree of the converter
     if b["driver_ok"]:
         pairs = []
